@@ -907,7 +907,7 @@ func C16() *engine.Check {
 	return &engine.Check{
 		Property: "C16",
 		Level:    "model_checking",
-		Subs:     []*engine.Sub{c16RoundtripSub(), c16RsaSub(), c16ManySub(), c16KeptSub(), c16CoercedSub(), c16AltSub(), c16StringsSub(), c16ConcSub(), concRaceSub("C16")},
+		Subs:     []*engine.Sub{c16RoundtripSub(), c16RsaSub(), c16ManySub(), c16KeptSub(), c16CoercedSub(), c16AltSub(), c16StringsSub(), c16CodesSub(), c16PrefixSub(), c16ConcSub(), concRaceSub("C16")},
 		Assumptions: []string{
 			"keys: committed fixtures plus one key per Generate* call per run; the conversion code has no key-dependent branches except leading-zero coordinates, which the 8 EC fixtures do not force",
 			"the canonical key material is computed independently: compressed SEC1 point for EC keys, raw 32 bytes for Ed25519, PKCS#1 DER for RSA",
